@@ -63,7 +63,8 @@ Definition call_result (needs_write : bool) (f : option fault) : outcome :=
 (* one candidate-capable node: API facts (taint on the Node, DisruptionReason condition and
    deletionTimestamp on the NodeClaim) and cluster-state facts (markedForDeletion field, and whether
    the cached NodeClaim copy already shows the deletionTimestamp) *)
-Record node := mkNode { n_taint : bool; n_cond : bool; n_del : bool; n_mark : bool; n_stdel : bool }.
+Record node := mkNode { n_taint : bool; n_cond : bool; n_del : bool; n_mark : bool; n_stdel : bool;
+                        n_gone : bool   (* Node and NodeClaim are gone from the API and from the cluster state *) }.
 
 (* one replacement NodeClaim: exists in the API, has (ever) reported Initialized, has a provider id,
    is known to the cluster state (Cluster.NodeClaimExists) *)
@@ -83,7 +84,8 @@ Record state := mkState {
   s_next : nat                      (* id of the next command *)
 }.
 
-Definition node0 := mkNode false false false false false.
+Definition node0 := mkNode false false false false false false.
+Definition gone_node := mkNode false false false false false true.
 Definition repl0 := mkRepl false false false false.
 
 Definition init (n : nat) : state := mkState n (fun _ => node0) [] [] (fun _ _ => repl0) 0%Z 0.
@@ -92,11 +94,11 @@ Definition upd {A} (f : nat -> A) (k : nat) (v : A) : nat -> A := fun x => if x 
 Definition upd2 {A} (f : nat -> nat -> A) (k j : nat) (v : A) : nat -> nat -> A :=
   fun x y => if (x =? k) && (y =? j) then v else f x y.
 
-Definition set_taint (x : node) b := mkNode b (n_cond x) (n_del x) (n_mark x) (n_stdel x).
-Definition set_cond (x : node) b := mkNode (n_taint x) b (n_del x) (n_mark x) (n_stdel x).
-Definition set_del (x : node) b := mkNode (n_taint x) (n_cond x) b (n_mark x) (n_stdel x).
-Definition set_mark (x : node) b := mkNode (n_taint x) (n_cond x) (n_del x) b (n_stdel x).
-Definition set_stdel (x : node) b := mkNode (n_taint x) (n_cond x) (n_del x) (n_mark x) b.
+Definition set_taint (x : node) b := mkNode b (n_cond x) (n_del x) (n_mark x) (n_stdel x) (n_gone x).
+Definition set_cond (x : node) b := mkNode (n_taint x) b (n_del x) (n_mark x) (n_stdel x) (n_gone x).
+Definition set_del (x : node) b := mkNode (n_taint x) (n_cond x) b (n_mark x) (n_stdel x) (n_gone x).
+Definition set_mark (x : node) b := mkNode (n_taint x) (n_cond x) (n_del x) b (n_stdel x) (n_gone x).
+Definition set_stdel (x : node) b := mkNode (n_taint x) (n_cond x) (n_del x) (n_mark x) b (n_gone x).
 
 (* StateNode.MarkedForDeletion() *)
 Definition mview (x : node) : bool := n_mark x || n_stdel x.
@@ -126,7 +128,8 @@ Inductive op :=
 | Recon (n : nat) (fget : list (nat * gfault)) (fdel fut fcl : fplan)
 | Cleanup (fut fcl : fplan)
 | ReplLaunch (k j : nat) | ReplInit (k j : nat) | ReplDelApi (k j : nat) | ReplDelState (k j : nat)
-| Deliver | Advance (ms : Z) | Restart.
+| Deliver | Advance (ms : Z) | Restart
+| CandGone (n : nat).
 
 (* ------------------------------------------------------------------ StartCommand *)
 
@@ -195,6 +198,7 @@ Definition start (s : state) (cands : list nat) (nrepl : nat) (ft fc : fplan) (f
   let s0 := mkState (s_n s) (s_nodes s) (s_q s) (s_keys s) (s_repl s) (s_now s) (S k) in
   if negb (valid_cands (s_n s) cands) then (s0, (ErrInvalid, []))
   else if existsb (in_queue (s_q s)) cands then (s0, (ErrBusy, []))
+  else if existsb (fun c => n_gone (s_nodes s c)) cands then (s0, (ErrInvalid, []))   (* never a candidate (C07) *)
   else
     let '(nodes1, e1, marked, err) := mark_all (s_nodes s) ft fc cands in
     if err && ((0 <? nrepl) || is_nil marked) then
@@ -256,6 +260,9 @@ Fixpoint delete_all (nodes : nat -> node) (fdel : fplan) (ready : bool * bool) (
       let d := hd false deleted in
       match call_result true (lookup fdel c) with
       | Applied =>
+          if n_gone (nodes c) then   (* NotFound from the API: ignored, nothing was deleted by this command *)
+            let '(nodes1, e, dl, err) := delete_all nodes fdel ready t (tl deleted) in (nodes1, e, d :: dl, err)
+          else
           let '(nodes1, e, dl, err) := delete_all (upd nodes c (set_del (nodes c) true)) fdel ready t (tl deleted) in
           (nodes1, EDelete c (fst ready) (snd ready) :: e, true :: dl, err)
       | Skipped =>
@@ -341,9 +348,9 @@ Definition recon (s : state) (n : nat) (fget : list (nat * gfault)) (fdel fut fc
 Definition synced (s : state) : bool :=
   forallb (fun kj => let r := s_repl s (fst kj) (snd kj) in negb (r_st r) || r_launched r) (s_keys s).
 
-(* nodes neither in the queue nor MarkedForDeletion() *)
+(* nodes of the cluster state (a node that is gone is not among them) neither in the queue nor MarkedForDeletion() *)
 Definition outdated (s : state) : list nat :=
-  filter (fun n => negb (in_queue (s_q s) n) && negb (mview (s_nodes s n))) (seq 0 (s_n s)).
+  filter (fun n => negb (in_queue (s_q s) n) && negb (mview (s_nodes s n)) && negb (n_gone (s_nodes s n))) (seq 0 (s_n s)).
 
 Definition cleanup (s : state) (fut fcl : fplan) : state * (ret * list effect) :=
   if negb (synced s) then (s, (CUnsynced, []))
@@ -386,6 +393,10 @@ Definition step (s : state) (o : op) : state * (ret * list effect) :=
                (fun k j => let r := s_repl s k j in mkRepl (r_exists r) (r_init r) (r_launched r) (r_exists r))
                (s_now s) (s_next s),
        (EnvOk, []))
+  | CandGone n =>       (* the instance is reclaimed / the objects are finalized: Node and NodeClaim leave the API and the
+                           informers deliver both deletions (Cluster.DeleteNodeClaim + DeleteNode drop the StateNode with
+                           its in-memory mark); the queue's map entry, if any, stays *)
+      (mkState (s_n s) (upd (s_nodes s) n gone_node) (s_q s) (s_keys s) (s_repl s) (s_now s) (s_next s), (EnvOk, []))
   end.
 
 Fixpoint run (s : state) (ops : list op) : state :=
@@ -541,12 +552,13 @@ Definition cleanup_restores (x : ostep) : Prop :=
   let '(pre, op, o) := x in
   clean_pass op (o_ret o) = true ->
   forall n, n < length (sn_nodes pre) -> sn_owner pre n = None -> sn_mview pre n = false ->
+    n_gone (sn_fact pre n) = false ->
     n_taint (sn_fact (o_snap o) n) = false /\ n_cond (sn_fact (o_snap o) n) = false.
 
 Definition cleanup_restores_b (x : ostep) : bool :=
   let '(pre, op, o) := x in
   negb (clean_pass op (o_ret o)) ||
-  forallb (fun n => match sn_owner pre n with Some _ => true | None => false end || sn_mview pre n ||
+  forallb (fun n => match sn_owner pre n with Some _ => true | None => false end || sn_mview pre n || n_gone (sn_fact pre n) ||
                     (negb (n_taint (sn_fact (o_snap o) n)) && negb (n_cond (sn_fact (o_snap o) n))))
           (seq 0 (length (sn_nodes pre))).
 
